@@ -286,6 +286,13 @@ def cgargs(ns):
         C.cstr('0.0' if lt is None else str(lt)), C.cz(ns['luq'] or 0))
 
 
+def cfloatstrs(ns):
+    """the printed forms of the float-valued arguments, as the instance writers see them"""
+    lt = ns['lt']
+    return '%s %s %s %s' % (C.cstr(fstr(ns['t1'], 0.0)), C.cstr(fstr(ns['t2'], 0.0)), C.cstr(fstr(ns['skew'], 1.0)),
+                            C.cstr('0.0' if lt is None else str(lt)))
+
+
 def cdraws(d):
     ll = lambda x: C.clist([C.czlist(l) for l in x])
     bl = lambda x: C.clist([C.cblist(l) for l in x])
